@@ -4,7 +4,7 @@ import random
 
 
 class Inst:
-    def __init__(self, name, module, pkg, body, unwind, desc, core=True, timeout=600, cost=1.0, attrs=(), features=(), require_opt=(), unwindset=()):
+    def __init__(self, name, module, pkg, body, unwind, desc, core=True, timeout=600, cost=1.0, attrs=(), features=(), require_opt=(), unwindset=(), expect_fail=None):
         self.name = name
         self.module = module  # harness module (file) the instance lives in
         self.pkg = pkg  # cargo package passed to `cargo kani -p`
@@ -18,6 +18,7 @@ class Inst:
         self.features = list(features)
         self.require_opt = set(require_opt)
         self.unwindset = list(unwindset)
+        self.expect_fail = expect_fail
         self.modpath = None
 
     def full_name(self):
@@ -225,11 +226,11 @@ PROPS["C18"] = Prop(
     ],
     assumptions=COMMON_ASSUME + [
         "std::collections::VecDeque is replaced under cfg(kani) by a fixed-capacity ring model (shim/containers.rs); native replays use the std VecDeque",
-        "the Vec<Kmer> attached to each run is the real alloc::vec::Vec",
+        "the Vec<Kmer> attached to each run is replaced under cfg(kani) by a fixed-capacity (12) model via one added import line in kmer_minimisers.rs (real Vec::push with data-dependent pushes re-allocates with symbolic sizes: 10 GB at w=3, L=5); native replays use alloc::vec::Vec",
     ],
     outside=["sequences longer than the instance length", "(w,m) pairs not in the bound table"],
     instances=c18_instances,
-    shims=["vecdeque"],
+    shims=["vecdeque", "kvec"],
     roles=[
         ("minimiser of a run differs", "run-minimiser-differs"),
         ("start of a run differs", "run-start-differs"),
@@ -333,21 +334,25 @@ def c03_instances(tier, seed):
                         {"clause": "bijection; table by native run of the real kmer_pos_maps, quantified obligations by the solver", "k": k,
                          "x,y": "symbolic, all codes < 4^k", "p": "symbolic column", "tables": [k]},
                         core=(k <= 6), timeout=1500, cost=10.0 * k))
-    hks = [1, 2, 3] if tier == "quick" else [1, 2, 3, 4]
+    hks = [1, 2, 3] if tier == "quick" else [1, 2, 3, 4, 5]
     for k in hks:
         for rev in (False, True):
             sfx = "_rev" if rev else ""
-            out.append(Inst("c03_header_k%d%s" % (k, sfx), "verif_c03h", "composition", "c03_header::<%d>()" % k, 4 ** k + 2,
+            out.append(Inst("c03_header_k%d%s" % (k, sfx), "verif_c03h", "composition",
+                            "c03_header::<%d>(&RANK_K%d, &INV_K%d, COUNT_K%d)" % (k, k, k, k), max(4 ** k + 2, k + 3),
                             {"clause": "CLI header names the canonical k-mers in column order", "k": k, "p": "symbolic column",
-                             "map_model_iteration": "reversed" if rev else "insertion order"},
+                             "map_model_iteration": "reversed" if rev else "insertion order", "tables": [k]},
                             core=(k <= 3), timeout=1800, cost=40.0 * 4 ** k, features=(["kmer/verif_rev_iter"] if rev else [])))
-        out.append(Inst("c03_pyheader_k%d" % k, "verif_c03p", "pybindings", "c03_pyheader::<%d>()" % k, 4 ** k + 2,
-                        {"clause": "Python binding header names the canonical k-mers in column order", "k": k, "p": "symbolic column"},
+        out.append(Inst("c03_pyheader_k%d" % k, "verif_c03p", "pybindings", "c03_pyheader::<%d>(&RANK_K%d, &INV_K%d, COUNT_K%d)" % (k, k, k, k),
+                        max(4 ** k + 2, k + 3),
+                        {"clause": "Python binding header names the canonical k-mers in column order", "k": k, "p": "symbolic column", "tables": [k]},
                         core=(k <= 3), timeout=1800, cost=40.0 * 4 ** k))
+    out.append(Inst("c03_pynew_k1", "verif_c03p", "pybindings", "c03_pynew::<1>(&RANK_K1, &INV_K1, COUNT_K1)", 6,
+                    {"clause": "binding constructor executed by the solver stores the native tables", "k": 1, "tables": [1]}, core=False, timeout=1500, cost=300.0))
     return out
 
 
-HASHMAP_NOTE = ("std HashMap/HashSet are replaced under cfg(kani) by association-list models (shim/containers.rs; RandomState needs a getrandom syscall Kani "
+HASHMAP_NOTE = ("std HashMap/HashSet are replaced under cfg(kani) by fixed-capacity (64) association-list models (shim/containers.rs; RandomState needs a getrandom syscall Kani "
                 "cannot model); iteration order of the model = insertion order (and reversed where stated); native replays use the std containers")
 BIO_NOTE = "the `bio` crate is patched by a stand-in in Kani builds (it does not compile under kani-compiler); none of its code is executed by this check"
 
@@ -360,11 +365,12 @@ PROPS["C03"] = Prop(
     ],
     functions=[
         "kmer::kmer::KmerGenerator::kmer_pos_maps", "kmer::kmer::KmerGenerator::rev_comp", "composition::oligo::OligoComputer::get_header (private)",
-        "pybindings::oligo::OligoComputer::{new,get_header}", "kmer::numeric_to_kmer",
+        "pybindings::oligo::OligoComputer::{get_header, new (k=1)}", "kmer::numeric_to_kmer",
     ],
     assumptions=COMMON_ASSUME + [HASHMAP_NOTE, BIO_NOTE,
                                  "for k >= 4 the rank/inverse tables are produced by running the real kmer_pos_maps(k) natively on the snapshot (input-free function) and embedded as constants; the quantified obligations over them are decided by the solver"],
-    outside=["k = 9, 10 (tables of 2^18 / 2^20 entries)", "header for k > 3 (quick) / k > 4 (thorough)",
+    outside=["k = 9, 10 (tables of 2^18 / 2^20 entries)", "header for k > 3 (quick) / k > 5 (thorough)",
+             "the wiring inside OligoComputer::new (calls rayon::current_num_threads) - the struct is built directly from the tables",
              "the join of the header vector with the delimiter presets (sits behind file I/O)", "OligoCgrComputer::new (calls rayon::current_num_threads)"],
     instances=c03_instances,
     shims=["hashmap", "bio"],
@@ -596,5 +602,248 @@ PROPS["C08"] = Prop(
         ("normalised entry", "wrong-fraction"),
         ("entry is not the number", "wrong-bin-count"),
         ("all-zero row", "empty-record-row"),
+    ],
+)
+
+
+# ---------------------------------------------------------------------------
+# C14
+import re as _re
+
+
+def c14_extract(inj, insts):
+    """Extracts the offset arithmetic of vectorise_mmap from the CURRENT source
+    text of composition/src/oligo.rs and emits it as Rust items (see
+    harness/composition/verif_c14.rs).  Unknown structure -> InjectError ->
+    the check is inconclusive (never a pass, never a violation)."""
+    import inject as _inject
+    gen = gen_tables(inj, insts)
+    p = _os.path.join(inj.ws, "composition/src/oligo.rs")
+    src = open(p).read()
+    m = _re.search(r"fn vectorise_mmap\(&self\).*?\n    \}\n", src, _re.S)
+    if not m:
+        raise _inject.InjectError("vectorise_mmap not found in composition/src/oligo.rs")
+    body = m.group(0)
+
+    def need(rx, what, text=body, flags=0):
+        mm = _re.search(rx, text, flags)
+        if not mm:
+            raise _inject.InjectError("C14(c): cannot extract %s from vectorise_mmap" % what)
+        return mm.group(1).strip()
+
+    number_size = need(r"const NUMBER_SIZE: usize = ([^;]+);", "NUMBER_SIZE", src)
+    per_line = need(r"let per_line_size = ([^;]+);", "per_line_size")
+    tail = need(r"\.seq_count\s*\}\s*([^;]*);", "file size expression", body, _re.S)
+    hadd = need(r"estimated_file_size \+= ([^;]+);", "header addend")
+    start_pos = need(r"let start_pos = ([^;]+);", "start_pos")
+    pos = need(r"write_at\(kvec_str\.as_bytes\(\),\s*([^;]+?)\);", "row write position", body, _re.S)
+    hpos = need(r"write_at\(header\.as_bytes\(\),\s*([^;]+?)\);", "header write position", body, _re.S)
+
+    def sub(e):
+        e = e.replace("self.kcount", "kcount").replace("self.delim.len()", "delim_len").replace("self.ksize", "K_UNUSED")
+        e = e.replace("kvec_str.len()", "row_len").replace("record.n", "n").replace("header.len()", "header_len")
+        return e
+
+    code = """const NUMBER_SIZE: usize = %s;
+    const HEADER_WRITE_POS: usize = %s;
+    fn per_line_size_of(kcount: usize, delim_len: usize) -> usize {
+        %s
+    }
+    fn file_size_of(seq_count: usize, header_on: bool, header_len: usize, delim_len: usize, kcount: usize) -> usize {
+        let per_line_size = per_line_size_of(kcount, delim_len);
+        let mut estimated_file_size = { seq_count } %s;
+        if header_on {
+            estimated_file_size += %s;
+        }
+        estimated_file_size
+    }
+    fn row_offset(n: usize, row_len: usize, header_len: usize, delim_len: usize, kcount: usize) -> usize {
+        let per_line_size = per_line_size_of(kcount, delim_len);
+        let start_pos = %s;
+        %s
+    }""" % (number_size, sub(hpos), sub(per_line), sub(tail), sub(hadd), sub(start_pos), sub(pos))
+    inj.extra_evidence["c14c_extracted_expressions"] = {
+        "NUMBER_SIZE": number_size, "per_line_size": per_line, "file_size": "seq_count " + tail, "header_addend": hadd,
+        "start_pos": start_pos, "row_write_position": pos, "header_write_position": hpos,
+    }
+    gen["C14C"] = code
+    return gen
+
+
+def c14_instances(tier, seed):
+    out = []
+
+    def safety(k, n, core=True, timeout=1500):
+        out.append(Inst("c14_oligo_safety_k%d_n%d" % (k, n), "verif_c14", "composition", "c14_oligo_safety::<%d, %d>(&RANK_K%d, COUNT_K%d)" % (k, n, k, k), n + 2,
+                        {"clause": "(a) get_unchecked sites of OligoComputer::vectorise_one", "k": k, "max_len": n, "norm": "symbolic", "tables": [k]},
+                        core=core, timeout=timeout, cost=20.0 * n))
+        out.append(Inst("c14_oligocgr_safety_k%d_n%d" % (k, n), "verif_c14o", "composition", "c14_oligocgr_safety::<%d, %d>(&RANK_K%d, COUNT_K%d)" % (k, n, k, k), n + 2,
+                        {"clause": "(a) get_unchecked sites of OligoCgrComputer::seq_to_kmer", "k": k, "max_len": n, "norm": "symbolic", "tables": [k]},
+                        core=core, timeout=timeout, cost=20.0 * n))
+        out.append(Inst("c14_table_range_k%d" % k, "verif_c14", "composition", "c14_table_range::<%d>(&RANK_K%d, COUNT_K%d)" % (k, k, k), 4,
+                        {"clause": "(a) every pos_map entry is an accumulator index", "k": k, "code": "symbolic", "tables": [k]}, core=core, timeout=600, cost=2.0))
+
+    ks = [2, 3, 4, 7] if tier == "quick" else [1, 2, 3, 4, 5, 6, 7, 8]
+    for k in ks:
+        safety(k, k + 2, core=(k <= 7))
+    for (k, n, e) in ([(2, 4, 2), (31, 32, 1)] if tier == "quick" else [(2, 5, 3), (3, 5, 3), (31, 33, 2)]):
+        out.append(Inst("c14_cov_safety_k%d_n%d_e%d" % (k, n, e), "verif_c14v", "coverage", "c14_cov_safety::<%d, %d, %d>()" % (k, n, e), max(n + 2, e + 2),
+                        {"clause": "(a) get_unchecked_mut(vec_bin) of CovComputer::vectorise_one", "k": k, "max_len": n, "table_entries": e,
+                         "multiplicities": "symbolic u32", "bin_size": "symbolic >= 1 (any usize)", "bin_count": "symbolic 1..=4"},
+                        core=(k <= 3), timeout=1800, cost=40.0 * n))
+    for (cap, l) in ([(8, 4)] if tier == "quick" else [(8, 4), (24, 8)]):
+        out.append(Inst("c14_mmwriter_c%d_l%d" % (cap, l), "verif_c14w", "ktio", "c14_mmwriter::<%d, %d>()" % (cap, l), cap + 2,
+                        {"clause": "(b) MMWriter::write_at contract: in-bounds and exact iff pos+len <= capacity", "capacity": cap, "len": "symbolic 1..=%d" % l,
+                         "pos": "symbolic"}, core=True, timeout=900, cost=10.0))
+        out.append(Inst("c14_mmwriter_tail_c%d_l%d" % (cap, l), "verif_c14w", "ktio", "c14_mmwriter_unchecked_tail::<%d, %d>()" % (cap, l), cap + 2,
+                        {"clause": "(b) characterisation, EXPECTED TO FAIL: write_at bounds-checks only the first byte", "capacity": cap}, core=False, timeout=900, cost=10.0,
+                        expect_fail=r"dereference failure|memcpy|copy_nonoverlapping|pointer|outside object bounds|src\.len|out of bounds"))
+    for k in ([1, 2, 3, 4, 7, 8] if tier == "quick" else range(1, 9)):
+        out.append(Inst("c14c_tiling_k%d" % k, "verif_c14", "composition", "c14c_tiling::<%d>()" % k, 12,
+                        {"clause": "(c) rows of vectorise_mmap tile the mapped file (extracted offset arithmetic)", "k": k, "records": "symbolic 1..=2^20",
+                         "record numbers": "symbolic", "delimiter length": "symbolic 0..=4", "header": "symbolic"}, core=True, timeout=900, cost=5.0))
+    return out
+
+
+PROPS["C14"] = Prop(
+    "C14",
+    modules=[
+        Module("composition", "verif_c14", "harness/composition/verif_c14.rs", parent="oligo"),
+        Module("composition", "verif_c14o", "harness/composition/verif_c14o.rs", parent="oligocgr"),
+        Module("coverage", "verif_c08", "harness/coverage/verif_c08.rs"),
+        Module("coverage", "verif_c14v", "harness/coverage/verif_c14v.rs"),
+        Module("ktio", "verif_c14w", "harness/ktio/verif_c14w.rs"),
+    ],
+    functions=["composition::oligo::OligoComputer::vectorise_one (unsafe get_unchecked / get_unchecked_mut)", "composition::oligocgr::OligoCgrComputer::seq_to_kmer (same)",
+               "coverage::CovComputer::vectorise_one (get_unchecked_mut(vec_bin))", "ktio::mmap::MMWriter::{new,write_at}",
+               "offset arithmetic of composition::oligo::OligoComputer::vectorise_mmap (per_line_size, file size, start_pos, write positions) - extracted expressions"],
+    assumptions=COMMON_ASSUME + [HASHMAP_NOTE, BIO_NOTE,
+                                 "(c) row-length model: every value formats to exactly NUMBER_SIZE characters (format!(\"{:.6}\") of a value in [0,1]); validated only by the native end-to-end replay",
+                                 "(c) the expressions are extracted by regular expressions from the current oligo.rs; if they cannot be located the check is inconclusive",
+                                 "(a) pos_map is the table of a native run of the real kmer_pos_maps(k)"],
+    outside=["the partition index get_unchecked(min_mer % n_parts) in counter::count_chunk (inline in a rayon closure, n_parts comes from reading the input file)",
+             "schedule-dependence of the mapped writes (threads)", "k = 8 safety instances in the quick tier", "delimiters longer than 4 bytes"],
+    instances=c14_instances,
+    shims=["hashmap", "bio"],
+    generate=c14_extract,
+    roles=[
+        ("(end-to-end)", "mmap-file-not-tiled-end-to-end"),
+        ("written over the header", "mmap-row-outside-file"),
+        ("outside the mapped file", "mmap-row-outside-file"),
+        ("overlap or are out of order", "mmap-rows-overlap"),
+        ("not adjacent", "mmap-rows-not-adjacent"),
+        ("first row does not start", "mmap-rows-not-adjacent"),
+        ("file size is not header", "mmap-file-size"),
+        ("header is not written", "mmap-header-position"),
+        ("4^k entries", "pos-map-size"),
+        ("index outside the accumulator", "pos-map-entry-out-of-range"),
+        ("kcount entries", "accumulator-size"),
+        ("bin-count entries", "accumulator-size"),
+        ("does not store the given bytes", "mmwriter-contract"),
+        ("modifies bytes outside", "mmwriter-contract"),
+    ],
+)
+
+
+# ---------------------------------------------------------------------------
+# C13
+def c13_instances(tier, seed):
+    out = []
+    for (k, n) in ([(1, 4), (2, 4)] if tier == "quick" else [(1, 5), (2, 5), (3, 5)]):
+        out.append(Inst("c13_oligo_ascii_k%d_n%d" % (k, n), "verif_c13o", "pybindings", "c13_oligo_ascii::<%d, %d>(&RANK_K%d, &INV_K%d, COUNT_K%d)" % (k, n, k, k, k),
+                        max(n + 2, kcount_of(k) + 2),
+                        {"clause": "oligo vector: binding vs core, bit-equal", "k": k, "max_len": n, "chars": "symbolic ASCII 0x04..=0x7F", "norm": "symbolic",
+                         "column": "symbolic", "tables": [k]}, core=(k <= 2), timeout=1800, cost=60.0 * n))
+    for k in ([2] if tier == "quick" else [1, 2, 3]):
+        out.append(Inst("c13_oligo_unicode_k%d" % k, "verif_c13o", "pybindings", "c13_oligo_unicode::<%d>(&RANK_K%d, &INV_K%d, COUNT_K%d)" % (k, k, k, k),
+                        max(12, kcount_of(k) + 2),
+                        {"clause": "oligo vector on 4 fixed non-ASCII strings (multi-byte chars act as ambiguous bytes)", "k": k, "norm": "symbolic", "tables": [k]},
+                        core=(k <= 2), timeout=1800, cost=100.0))
+        out.append(Inst("c13_header_k%d" % k, "verif_c13o", "pybindings", "c13_header::<%d>(&RANK_K%d, &INV_K%d, COUNT_K%d)" % (k, k, k, k),
+                        max(8, kcount_of(k) + 2),
+                        {"clause": "binding header equals core header", "k": k, "column": "symbolic", "tables": [k]}, core=(k <= 2), timeout=1800, cost=100.0))
+    for n in ([2, 3] if tier == "quick" else [2, 3, 4]):
+        out.append(Inst("c13_cgr_n%d" % n, "verif_c13c", "pybindings", "c13_cgr::<%d>()" % n, n + 2,
+                        {"clause": "CGR: binding vs core, same points, rejects the same inputs", "max_len": n, "chars": "symbolic ASCII 0x00..=0x7F",
+                         "square": "symbolic 1..=2^20"}, core=(n <= 3), timeout=2400, cost=80.0 * n * n))
+    for (k, n) in ([(2, 5), (31, 33)] if tier == "quick" else [(1, 5), (2, 6), (4, 8), (31, 34)]):
+        out.append(Inst("c13_kmer_iter_k%d_n%d" % (k, n), "verif_c13k", "pybindings", "c13_kmer_iter::<%d, %d, %d>()" % (k, n, n - k + 2), n + 2,
+                        {"clause": "k-mer iterator: binding vs core after the String is consumed and the object moved", "k": k, "max_len": n},
+                        core=(k <= 4), timeout=1800, cost=30.0 * n))
+    for (w, m, n) in ([(3, 2, 5)] if tier == "quick" else [(2, 1, 5), (3, 2, 6), (4, 2, 7)]):
+        out.append(Inst("c13_min_iter_w%d_m%d_l%d" % (w, m, n), "verif_c13m", "pybindings", "c13_min_iter::<%d, %d, %d, %d>()" % (w, m, n, n - w + 3), max(n + 2, w + 2),
+                        {"clause": "minimiser iterator: binding vs core after the String is consumed and the object moved", "w": w, "m": m, "len": n},
+                        core=False if n > 5 else True, timeout=2400, cost=300.0,
+                        unwindset=[("kmer/src/minimiser.rs", BUFF_LOOP, w - m + 3)]))
+    return out
+
+
+PROPS["C13"] = Prop(
+    "C13",
+    modules=[
+        Module("composition", "verif_c04", "harness/composition/verif_c04.rs", parent="oligo"),
+        Module("composition", "verif_c11", "harness/composition/verif_c11.rs", parent="cgr"),
+        Module("pybindings", "verif_c13o", "harness/pybindings/verif_c13o.rs", parent="oligo"),
+        Module("pybindings", "verif_c13c", "harness/pybindings/verif_c13c.rs", parent="cgr"),
+        Module("pybindings", "verif_c13k", "harness/pybindings/verif_c13k.rs", parent="kmer"),
+        Module("pybindings", "verif_c13m", "harness/pybindings/verif_c13m.rs", parent="min"),
+    ],
+    functions=["pybindings::oligo::OligoComputer::{vectorise_one,get_header} (#[pymethods] bodies)", "composition::oligo::OligoComputer::vectorise_one",
+               "pybindings::cgr::CgrComputer::{new,vectorise_one}", "composition::cgr::CgrComputer::vectorise_one",
+               "pybindings::kmer::KmerGenerator::new + inner generator", "pybindings::min::MinimiserGenerator::new + inner generator"],
+    assumptions=COMMON_ASSUME + [HASHMAP_NOTE, BIO_NOTE,
+                                 "std VecDeque replaced by the ring model in Kani builds (minimiser iterator instances)",
+                                 "strings are symbolic ASCII (String::from_utf8_unchecked on bytes < 0x80) plus four fixed non-ASCII strings",
+                                 "only is_ok()/is_err() of PyResult is inspected; the PyErr object is never materialised or dropped"],
+    outside=["everything that needs a live interpreter: ValueError type, tuple conversion, __next__ through PyRefMut, GIL", "vectorise_batch (rayon pool)",
+             "module registration in pip/ and conda/", "arbitrary (symbolic) non-ASCII strings"],
+    instances=c13_instances,
+    shims=["hashmap", "bio", "vecdeque"],
+    generate=gen_tables,
+    roles=[
+        ("differ in length", "length-differs"),
+        ("oligo vector differs", "oligo-differs"),
+        ("header length", "header-differs"),
+        ("header differs", "header-differs"),
+        ("disagree on accepting", "cgr-acceptance-differs"),
+        ("CGR point differs", "cgr-point-differs"),
+        ("k-mer iterator yields", "kmer-iter-differs"),
+        ("minimiser iterator yields", "min-iter-differs"),
+    ],
+)
+
+
+# ---------------------------------------------------------------------------
+# C06 (narrow)
+def c06_instances(tier, seed):
+    out = []
+    for (r, l) in ([(2, 3), (3, 2)] if tier == "quick" else [(2, 3), (3, 2), (3, 4)]):
+        out.append(Inst("c06_numbering_r%d_l%d" % (r, l), "verif_c06", "ktio", "c06_numbering::<%d, %d>()" % (r, l), max(r, l) + 3,
+                        {"clause": "numbering / copy-out / statistics of ktio::seq over an arbitrary parsed-record list", "records": "symbolic 0..=%d" % r,
+                         "bases per record": "symbolic 0..=%d" % l, "ids": "symbolic 2 printable ASCII bytes", "bases": "symbolic ASCII letters", "format": "symbolic FASTA/FASTQ"},
+                        core=(r * l <= 6), timeout=2400, cost=100.0 * r * l))
+    return out
+
+
+PROPS["C06"] = Prop(
+    "C06",
+    modules=[Module("ktio", "verif_c06", "harness/ktio/verif_c06.rs")],
+    functions=["ktio::seq::Sequences::new", "<ktio::seq::Sequences as Iterator>::next", "ktio::seq::Sequences::seq_stats"],
+    assumptions=[COMMON_ASSUME[0], COMMON_ASSUME[1],
+                 "the `bio` FASTA/FASTQ readers are replaced in Kani builds by a stand-in that hands out a harness-controlled list of (id, bases) records; "
+                 "NO parsing (line wrapping, CRLF, final newline, id = first word), NO gzip and NO suffix inference is covered",
+                 "native replay serialises the solver's records as single-line FASTA/FASTQ and reads them through the real bio parser"],
+    outside=["FASTA/FASTQ parsing (bio crate; does not compile under Kani)", "gzip incl. multi-member files (flate2/miniz_oxide over a file)",
+             "SeqFormat::get suffix inference (core's TwoWaySearcher did not leave symbolic execution in 400 s)", "more than 3 records"],
+    instances=c06_instances,
+    shims=["bio"],
+    roles=[
+        ("iteration ends early", "record-missing"),
+        ("numbered 0,1,2", "numbering"),
+        ("id is not copied", "id-copy"),
+        ("bases are not copied", "bases-copy"),
+        ("more than once", "record-duplicated"),
+        ("record count differs", "stats-count"),
+        ("total bases differ", "stats-bases"),
     ],
 )
